@@ -21,9 +21,6 @@ class Addition(BinaryNode):
         """
         super(Addition, self).__init__(child1, child2)
 
-        self.add_child(child1)
-        self.add_child(child2)
-
         self.in_vars = child1.in_vars + child2.in_vars
         self.out_vars = child1.out_vars + child2.out_vars
 
